@@ -27,7 +27,7 @@ Print Assumptions com_is_mean.
 Example com_is_mean_nonvacuous :
   in_root ex_data ex_root ex_order /\
   exists t, fill_order true 6 ex_data ex_order (init ex_root) = Done true t.
-Proof. exact (conj ex_in_root ex_builds'0). Qed.
+Proof. exact (conj ex_in_root ex_builds0). Qed.
 
 (* 2. the four closed half-size boxes cover the closed parent box, and insert() of a point inside
       the root box never reaches its `return false` ("this should never happen") *)
@@ -99,7 +99,7 @@ Example order_independent_nonvacuous :
   Permutation ex_order ex_order' /\ in_root ex_data ex_root ex_order /\
   (exists t, fill_order true 6 ex_data ex_order (init ex_root) = Done true t) /\
   (exists t, fill_order true 6 ex_data ex_order' (init ex_root) = Done true t).
-Proof. exact (conj ex_perm (conj ex_in_root (conj ex_builds'0 ex_builds'))). Qed.
+Proof. exact (conj ex_perm (conj ex_in_root (conj ex_builds0 ex_builds'))). Qed.
 
 (* 5. theta = 0, no coincident points: computeNonEdgeForces adds exactly the all-pairs sums
       neg_f += sum_{j<>i} q_ij^2 (y_i - y_j),  sum_Q += sum_{j<>i} q_ij,  q_ij = 1/(1+|y_i-y_j|^2) *)
@@ -160,7 +160,7 @@ Proof. exact spec_okb_sound_gen. Qed.
 Print Assumptions spec_okb_sound.
 Theorem struct_okb_sound : forall data ins t,
   struct_okb data ins t = true -> spec data ins (recom data ins t) /\ cum_consistent t = true.
-Proof. exact (fun data ins t H => conj (struct_okb_sound_gen data ins t H) (struct_okb_cum_consistent data ins t H)). Qed.
+Proof. exact struct_okb_sound_final. Qed.
 Print Assumptions struct_okb_sound.
 
 (* 9. the list of summarised cells the model driver prints is what forces_at folds over *)
